@@ -438,7 +438,9 @@ fn check_conn(role_server: bool, ids: &[u64], plen: usize, incoming: &[Vec<u8>],
 }
 
 pub fn run(args: &Args) -> i32 {
-    let thorough = args.tier == Tier::Thorough;
+    // the deeper parameter set is cheap enough (seconds) to be the quick tier as well
+    let thorough = true;
+    let _ = Tier::Thorough;
     let mut rep = Report::new("C18", args.tier, args.seed, "exploration");
     rep.exhaustive = true;
     let depth = if thorough { 5 } else { 4 };
